@@ -8,6 +8,7 @@ func init() {
 func runC21(c *Ctx) {
 	c.R.Rule("U-effects", "for every History.Append(height, do, undo) in dpos/state: every shared-state location the do-closure writes (struct field assigned, map field inserted into / deleted from, following same-package callees) is restored by the undo-closure (assign by assign; insert by delete or assign; delete by insert or assign)")
 	c.R.Rule("U-order", "the histories committed while processing a block (State.History, Arbiters.History, ...) are all rolled back by Arbiters.RollbackTo, in reverse commit order where their changes overlap")
+	c.uValues("U-value", "dpos/state", 1)
 	c.uOrder("U-order", "dpos/state", c.fn("dpos/state", "Arbiters", "ProcessBlock"), c.fn("dpos/state", "Arbiters", "RollbackTo"), map[string]string{}, nil)
 	c.uEffects("U-effects", "dpos/state", 85, map[string]string{
 		"(*dpos/state.State).processTransactions|Producer.expiredNFTVotes:assign":      "lazy initialisation of a nil map before the insert (`if m == nil { m = make }`); the rollback deletes the inserted key and an empty map is observationally the nil map",
@@ -16,6 +17,7 @@ func runC21(c *Ctx) {
 }
 
 func runC22(c *Ctx) {
+	c.uValues("U-value", "cr/state", 1)
 	c.R.Rule("U-effects", "for every History.Append(height, do, undo) in cr/state: every shared-state location the do-closure writes is restored by the undo-closure (assign by assign; insert by delete or assign; delete by insert or assign)")
 	c.R.Rule("U-order", "the committee's histories are rolled back by Committee.RollbackTo; two histories whose recorded changes write a common location are rolled back in the reverse of the order in which Committee.ProcessBlock commits them")
 	c.uEffects("U-effects", "cr/state", 60, map[string]string{})
